@@ -2,6 +2,11 @@ package runner
 
 import (
 	"context"
+	"os"
+	"path/filepath"
+	"strings"
+
+	"github.com/facebookincubator/tacquito/cmds/server/config"
 
 	"tqsim/plan"
 	"tqsim/sut"
@@ -16,17 +21,131 @@ type LoaderResult struct {
 // LoaderStepResult compares one long-lived loader with a fresh one on the same bytes.
 type LoaderStepResult struct {
 	Step     int
+	Bytes    int
 	OldErr   string
 	FreshErr string
-	Old      string // canonical JSON of the value the long-lived loader published
-	Fresh    string // canonical JSON of the value a fresh loader published
-	Mutated  []int  // indices of earlier published values that no longer equal their snapshot
+	Old      string   // canonical JSON of the value the long-lived loader published
+	Fresh    string   // canonical JSON of the value a fresh loader published
+	Diff     []string // top-level parts that differ
+	Mutated  []int    // steps whose earlier published value no longer equals its snapshot
+}
+
+// TornText applies a disk fault to the document text: what the loader reads is a prefix
+// of the new file, the new file over the old one's tail, nothing, or noise.
+func TornText(prev, text []byte, tear string, n int) []byte {
+	switch tear {
+	case "short":
+		if n > len(text) {
+			n = len(text)
+		}
+		return text[:n]
+	case "stale-tail":
+		if n > len(text) {
+			n = len(text)
+		}
+		out := append([]byte(nil), text[:n]...)
+		if len(prev) > n {
+			out = append(out, prev[n:]...)
+		}
+		return out
+	case "empty":
+		return []byte{}
+	case "garbage":
+		out := make([]byte, n%200+1)
+		for i := range out {
+			out[i] = byte(33 + (i*31+n)%90)
+		}
+		return out
+	}
+	return text
+}
+
+func runLoaderHistory(ctx context.Context, p *plan.Plan, w *world.World, lg *sut.Logger) *LoaderResult {
+	res := &LoaderResult{}
+	ls := p.Scen.Loader
+	format := p.Scen.Format
+	src := sut.NewSource(format)
+	dir, err := os.MkdirTemp("", "tqsim-cfg-")
+	if err != nil {
+		return res
+	}
+	defer os.RemoveAll(dir)
+	path := filepath.Join(dir, "tacquito."+format)
+	apply := func(s sut.Source, via string, text []byte) (config.ServerConfig, error) {
+		var err error
+		if via == "load" {
+			if werr := os.WriteFile(path, text, 0o644); werr != nil {
+				return config.ServerConfig{}, werr
+			}
+			err = s.Load(path)
+		} else {
+			err = s.Unmarshal(text)
+		}
+		if err != nil {
+			return config.ServerConfig{}, err
+		}
+		return <-s.Config(), nil
+	}
+	var published []config.ServerConfig
+	var snaps []string
+	var pubStep []int
+	var prev []byte
+	for i, st := range ls.Steps {
+		if st.Doc >= len(p.Scen.RawDocs) {
+			continue
+		}
+		text := []byte(p.Scen.RawDocs[st.Doc])
+		if st.Tear != "" {
+			text = TornText(prev, text, st.Tear, st.TearN)
+			w.Fault("config-" + st.Tear)
+		}
+		prev = []byte(p.Scen.RawDocs[st.Doc])
+		r := LoaderStepResult{Step: i, Bytes: len(text)}
+		ov, oerr := apply(src, st.Via, text)
+		fv, ferr := apply(sut.NewSource(format), st.Via, text)
+		if oerr != nil {
+			r.OldErr = oerr.Error()
+		}
+		if ferr != nil {
+			r.FreshErr = ferr.Error()
+		}
+		if oerr == nil {
+			r.Old = sut.Canon(ov)
+		}
+		if ferr == nil {
+			r.Fresh = sut.Canon(fv)
+		}
+		if oerr == nil && ferr == nil && r.Old != r.Fresh {
+			r.Diff = sut.TopLevelDiff(ov, fv)
+		}
+		// configurations already published must not have been written by this load
+		for k := range published {
+			if sut.Canon(published[k]) != snaps[k] {
+				r.Mutated = append(r.Mutated, pubStep[k])
+			}
+		}
+		if oerr == nil {
+			published = append(published, ov)
+			snaps = append(snaps, r.Old)
+			pubStep = append(pubStep, i)
+		}
+		w.Rec(world.Ev{Actor: "loader", Kind: "load-step", A: int64(i), B: int64(len(text)), S: st.Via + "|" + st.Tear + "|" + errs(oerr) + "|" + errs(ferr) + "|" + strings.Join(r.Diff, ",")})
+		res.Steps = append(res.Steps, r)
+	}
+	return res
+}
+
+func errs(e error) string {
+	if e == nil {
+		return ""
+	}
+	s := e.Error()
+	if len(s) > 60 {
+		s = s[:60]
+	}
+	return s
 }
 
 func runLoader(ctx context.Context, p *plan.Plan, w *world.World, lg *sut.Logger) *LoaderResult {
 	return runLoaderHistory(ctx, p, w, lg)
-}
-
-func runLoaderHistory(ctx context.Context, p *plan.Plan, w *world.World, lg *sut.Logger) *LoaderResult {
-	return &LoaderResult{}
 }
